@@ -508,6 +508,7 @@ def c17(tier):
     C.extra["units"] = sorted(P.units.keys())
     C.extra["not_decided"] = ["numerical agreement with pointwise evaluation", "slicemultiply index arithmetic"]
     ge.ge5(P, C)
+    ge.ge6(P, C)
     return C.finish()
 
 
